@@ -62,6 +62,17 @@ func c01Alphabet() []sym {
 	for _, t := range []uint16{0x2, 0x5, 0x7, 0x9, 0x11, 0x3, 0xB, 0xC, 0x0, 0xFF, 0xFFFF} {
 		a = append(a, sym{Name: fmt.Sprintf("T%#x", t), Class: "OTHER", Bytes: tsgu.Packet(t, []byte{0, 0, 0, 0, 0, 0, 0, 0})})
 	}
+	// unknown 16-bit types whose low byte is a request type, with that request's well-formed body: they are as
+	// unknown as 0xFFFF (the type field is 16 bits wide)
+	hi := func(p []byte) []byte { q := append([]byte{}, p...); q[1] |= 0x01; return q }
+	a = append(a,
+		sym{Name: "T0x101=HS", Class: "OTHER", Bytes: hi(tsgu.Handshake(1, 0, 0, tsgu.ExtAuthPAA))},
+		sym{Name: "T0x104=TC", Class: "OTHER", Bytes: hi(tsgu.TunnelCreate(cookie(hostA), true))},
+		sym{Name: "T0x106=TA", Class: "OTHER", Bytes: hi(tsgu.TunnelAuth("client1"))},
+		sym{Name: "T0x108=CC", Class: "OTHER", Bytes: hi(tsgu.ChannelCreate(hostA, 3389))},
+		sym{Name: "T0x10a=DATA", Class: "OTHER", Bytes: hi(tsgu.Data([]byte{0x5a}))},
+		sym{Name: "T0x110=CLOSE", Class: "OTHER", Bytes: hi(tsgu.CloseChannel())},
+	)
 	return a
 }
 
@@ -301,6 +312,8 @@ func c01Exec(alpha []sym, token, sc bool, kind string, hist []int, rep *Report) 
 	return out
 }
 
+var c01KeyWarned bool
+
 func c01(env *Env, rep *Report) {
 	alpha := c01Alphabet()
 	names := make([]string, len(alpha))
@@ -405,7 +418,14 @@ func c01(env *Env, rep *Report) {
 					}
 					o := r.obs[i] + " -> " + r.key[i]
 					if prev, ok := ext[k][h[i]]; ok && prev != o {
-						infra("C01: unsound canonical key: state %q + %s gives both %q and %q", k, alpha[h[i]].Name, prev, o)
+						// the implementation has state that the canonical key does not see (two histories with the
+						// same key behave differently): the merged search of part (1) is then not a fixpoint of
+						// the real state space. Not a verdict by itself; the unmerged enumeration and the monitor
+						// still judge every history up to their depth.
+						if !c01KeyWarned {
+							c01KeyWarned = true
+							rep.capf("canonical state key unsound (hidden state in the implementation): state %q + %s gives both %q and %q; part (1) is not exhaustive", k, alpha[h[i]].Name, prev, o)
+						}
 					}
 					ext[k][h[i]] = o
 				}
@@ -514,6 +534,10 @@ func c01Replay(env *Env, rep *Report, alpha []sym) {
 	fmt.Println(string(b))
 	sort.Strings(r.viols)
 	for _, v := range r.viols {
-		rep.violate("C01/"+v, "replay", rp)
+		sig := "C01/" + v
+		if kind != "proc" {
+			sig += "/" + kind
+		}
+		rep.violate(sig, "replay", rp)
 	}
 }
